@@ -48,7 +48,7 @@ def run(ctx):
     for root in sorted(callers):
         if not root.startswith("<" + SYS) and not root.startswith(SYS):
             continue
-        name = root.rsplit("::", 1)[1]
+        name = root.rsplit("::", 1)[-1]
         known = name in APIS or name in ENGINE_CONSTRUCTED or name.startswith("kernel_")
         ctx.ob(f"write-api-classified|{name}", known, f"SystemService::{name} writes substates: " + ("validated API" if name in APIS else ENGINE_CONSTRUCTED.get(name, "thin kernel forwarding impl") if known else "NOT classified (needs a validation rule or an engine-constructed reason)"), F.fns[root].loc())
     root = sysfn(F, "new_object_internal")
@@ -89,7 +89,7 @@ def run(ctx):
              "iteration (or Ok) only through the `insert(own) == true` edge of a duplicate test whose other arm is doomed — every listed own is "
              "tested, not only the newly added ones")
     for n in (CF + "OpenedSubstate::diff", CF + "SubstateDiff::from_new_substate"):
-        short = n.rsplit("::", 2)[1] + "::" + n.rsplit("::", 1)[1]
+        short = n.rsplit("::", 2)[1] + "::" + n.rsplit("::", 1)[-1]
         if not ctx.anchor(n):
             continue
         b = ctx.body(n)
